@@ -16,6 +16,21 @@ CHECKS = {
         technique='Hypothesis-generated RPC histories vs sequential reference model (model-based testing) + history invariants',
         text='Generated histories of all 16 RPCs (+GetOperation) with concrete small ids (existing and missing), all argument variants and both datastores are executed against a real VizierServicer; after every call the response, the error class, the full ListStudies/GetStudy/ListTrials snapshot and model-free lifecycle invariants are compared with an independent sequential reference model; erroring calls must leave the snapshot byte-identical; requests and responses are scribbled over after use to expose pass-by-reference. Sampling of histories (thousands per run), no exhaustiveness claim.',
         note='trusts harness/service_model.py (second implementation written from proto comments/docstrings; documented decisions in DESIGN.md C01), the deterministic harness policy, timestamp blanking'),
+    'C02': dict(
+        category=EXPL,
+        technique='Hypothesis-generated suggest/complete/request/delete histories with drawn delivery profiles vs three-source-fill reference model',
+        text='Histories of suggest (raw RPC and clients.Study path, 1-4 workers, n 1..5), complete, request, add-completed, delete and stop against a real servicer (RAM and SQL) whose harness policy over-/under-/exactly delivers per a drawn profile; every suggest is compared with the reference model (count, ACTIVE + client_id, operation name, snapshot) and with model-free clauses: stickiness on repeat (same trials, nothing created, policy not invoked), no trial active for two workers, surplus conserved as REQUESTED, fresh increasing ids. Sampling of histories.',
+        note='trusts harness/service_model.py; which REQUESTED trial is handed out and which suggestion lands on which new id is adopted from the implementation after validating it is an allowed choice'),
+    'C06': dict(
+        category='fault_enumeration',
+        technique='Hypothesis-generated fault plans (exception type x position x delivery count) x follow-up histories; bounded-liveness oracle',
+        text='A harness policy raises one of nine exception types or delivers 0..n+3 suggestions at drawn Pythia invocations (suggest and early stop); each fault is followed by generated calls of the same and other workers. Oracle: the faulty call reports (done operation with error, or raised error), no operation of the worker stays done=False / ACTIVE in the datastore, the next call that needs the algorithm reaches it (invocation counter), clients.get_suggestions returns within 5 polls, stored trials keep the lifecycle invariants. In-process Pythia and Pythia behind a real gRPC hop; RAM and SQL.',
+        note='fault positions and types are sampled, not exhaustive; liveness is checked as bounded termination of the next call'),
+    'C07': dict(
+        category=EXPL,
+        technique='differential testing of three backends on Hypothesis-generated service histories and raw DataStore call sequences',
+        text='The C01 history generator is replayed on RAM, in-memory SQLite and file SQLite servicers; responses, error classes, snapshots, every GetOperation name of the universe and the policy invocation counts must agree after each call. A second family drives all 21 DataStore methods directly (under the callers\' preconditions) with a pass-by-value probe.',
+        note='a defect common to all backends is invisible here (C01 covers it); early-stopping recycle period is pinned to 0 or 1 day to remove wall-clock dependence'),
     'C10': dict(
         category=EXPL,
         technique='exhaustive namespace enumeration + Hypothesis op-list histories vs dict reference model',
